@@ -1519,6 +1519,23 @@ def check_property(prop, tier, seed):
                 trivial = oi["cls"] == "err" and oi.get("pos") == 0 and oi.get("kind") in ("badAlign", "insufficientSize")
                 branch = oi["cls"] + (":" + oi["kind"] if oi["cls"] == "err" else "")
                 stats["dist"][branch] += 1
+                # the input distribution: what kind of case, which operation, which outcome (error kinds of the scripted pipes included)
+                lk = lhs.split(" ", 1)[0]
+                stats["dist"]["line:" + lk] += 1
+                if lk == "O":
+                    opw = op_of(lhs).split(" ")
+                    while opw and opw[0] == "item": opw = opw[2:]
+                    stats["dist"]["op:" + (opw[0] if opw else "?") + ("(def)" if len(opw) > 1 and opw[1].startswith("(def") else "")] += 1
+                    rr = str(oi.get("res", "?"))
+                    rk = rr.split("@")[0] if rr.startswith("err:") else rr.split(":")[0]
+                    stats["dist"]["ret:" + (rk if rk.startswith("err:") or rk in ("ok", "full", "none", "some", "PANIC", "empty", "noitem", "novariant", "notvalid") else "element")] += 1
+                elif lk in ("E", "F", "A"):
+                    stats["dist"][lk + ":" + str(oi.get("res", oi["cls"])).split("@")[0][:24]] += 1
+                elif lk in ("S", "R", "AS", "AR", "AP"):
+                    for x in oi.get("outs", []):
+                        stats["dist"]["io:" + (x if x.startswith(("err:", "read:")) else x.split(":")[0])] += 1
+                    for e in lhs.split(" ")[3].split(","):
+                        if e and not e.isdigit() and lk != "AP": stats["dist"]["script:" + e] += 1
                 if not trivial:
                     stats["nontrivial"].add(hashlib.md5((lhs.split(" ", 1)[1]).encode()).digest()[:8])
                 if len(stats["samples"]) < 6 and not trivial and stats["cases"] % 997 == 3:
